@@ -300,6 +300,17 @@ func linqToSlice(fr *Frame, site ssa.Instruction, fn *ssa.Function, args []*Term
 		}
 		return mkAnd(cs...)
 	}
+	projOK := true
+	if q.sel != nil {
+		// probe: can the projection be evaluated as a pure term? (it cannot if it allocates)
+		n0 := len(vc.unsupported)
+		fr.pureCall(q.sel, []*Term{srcAt("j")}, before)
+		if len(vc.unsupported) > n0 {
+			vc.unsupported = vc.unsupported[:n0]
+			projOK = false
+			vc.comment("linq projection allocates: the elements of the result are left unconstrained")
+		}
+	}
 	proj := func(j string) *Term {
 		if q.sel != nil {
 			return fr.pureCall(q.sel, []*Term{srcAt(j)}, before)
@@ -348,7 +359,7 @@ func linqToSlice(fr *Frame, site ssa.Instruction, fn *ssa.Function, args []*Term
 		vc.assume(st.guard, leaf(fmt.Sprintf("(forall ((m Int)) (! %s :qid linq-onto :pattern ((%s m)) :pattern ((selem %s m))))", onto("m"), idx, res)))
 		// ground instance for the first output position (used by emptiness tests)
 		vc.assume(st.guard, leaf(onto("0")))
-	} else {
+	} else if projOK {
 		vc.assume(st.guard, leaf(fmt.Sprintf("(forall ((j Int)) (! (=> (and (<= 0 j) (< j %s)) %s) :pattern (%s) :pattern ((selem %s j))))", n, mkEq(outAt("j"), proj("j")), srcAddr("j"), res)))
 	}
 	vc.storeVal(st, outT, p, res)
@@ -422,4 +433,56 @@ func init() {
 		}
 		set["wm"] = true
 	}
+}
+
+// slices.Contains(s, v): exists i. s[i] == v ; unrolled for slices of known small length
+func slicesContains(fr *Frame, site ssa.Instruction, fn *ssa.Function, args []*Term, st *State) []*Term {
+	vc := fr.vc
+	c := &site.(*ssa.Call).Call
+	sl, ok := c.Args[0].Type().Underlying().(*types.Slice)
+	if !ok {
+		vc.unsupportedf("slices.Contains on %s", c.Args[0].Type())
+		return []*Term{vc.fresh("contains", "Bool")}
+	}
+	s, v := args[0], args[1]
+	if k, ok := constLen(s); ok && k <= 8 {
+		var ds []*Term
+		for i := 0; i < k; i++ {
+			ds = append(ds, mkEq(vc.load(st, sl.Elem(), app("selem", s, intLit(int64(i)))), v))
+		}
+		return []*Term{vc.name("contains", "Bool", mkOr(ds...))}
+	}
+	e := vc.load(st, sl.Elem(), leaf(fmt.Sprintf("(selem %s ci)", s)))
+	return []*Term{leaf(fmt.Sprintf("(exists ((ci Int)) (and (<= 0 ci) (< ci (s.len %s)) %s))", s, mkEq(e, v)))}
+}
+
+// slices.Equal(a, b): same length and element-wise equal (nil and empty are equal)
+func slicesEqual(fr *Frame, site ssa.Instruction, fn *ssa.Function, args []*Term, st *State) []*Term {
+	vc := fr.vc
+	c := &site.(*ssa.Call).Call
+	sl, ok := c.Args[0].Type().Underlying().(*types.Slice)
+	if !ok {
+		vc.unsupportedf("slices.Equal on %s", c.Args[0].Type())
+		return []*Term{vc.fresh("equal", "Bool")}
+	}
+	a, b := args[0], args[1]
+	if _, basic := sl.Elem().Underlying().(*types.Basic); basic {
+		key, srt := vc.heapKey(sl.Elem())
+		f := quoteSym("seqval:" + typeKey(sl.Elem()))
+		vc.decl(fmt.Sprintf("(declare-fun %s (%s Int Int Int) Int)", f, srt))
+		h := vc.comp(st, key, srt)
+		sv := func(x *Term) *Term { return app(f, h, app("s.arr", x), app("s.off", x), app("s.len", x)) }
+		// two empty slices have equal content whatever their arrays
+		return []*Term{vc.name("sleq", "Bool", mkAnd(mkEq(app("s.len", a), app("s.len", b)), mkOr(mkEq(app("s.len", a), leaf("0")), mkEq(sv(a), sv(b)))))}
+	}
+	vc.unsupportedf("slices.Equal on non-basic elements")
+	return []*Term{vc.fresh("equal", "Bool")}
+}
+
+func init() {
+	specialPrefixes["slices.Contains"] = slicesContains
+	specialPrefixes["slices.Equal"] = slicesEqual
+	nopm := func(fr *Frame, c *ssa.CallCommon, set map[string]bool) {}
+	specialModPrefixes["slices.Contains"] = nopm
+	specialModPrefixes["slices.Equal"] = nopm
 }
